@@ -193,7 +193,7 @@ pub fn record_run<T: Sc>(rs: &RunSpec<T>) -> RunOut {
         json!({"patience": rs.cfg.patience, "stats": rs.with_stats}),
         None,
     ));
-    let pool = rayon::ThreadPoolBuilder::new().num_threads(rs.threads.max(1)).build().unwrap();
+    let pool = crate::pools::pool(rs.threads.max(1));
     let cfg = rs.cfg.clone();
     let with_stats = rs.with_stats;
     let fitted = catch_unwind(AssertUnwindSafe(|| {
@@ -762,7 +762,7 @@ struct FitFacts<T: Sc> {
 }
 fn fit_facts<T: Sc>(rs: &RunSpec<T>, stats: bool) -> Option<FitFacts<T>> {
     let prob = make_problem(rs, &rs.start, None).ok()?;
-    let pool = rayon::ThreadPoolBuilder::new().num_threads(rs.threads.max(1)).build().unwrap();
+    let pool = crate::pools::pool(rs.threads.max(1));
     pool.install(|| {
         if stats && !rs.mrhs {
             let o = prob.fit_stats(&rs.cfg, &[], &[])?;
@@ -934,7 +934,7 @@ fn proxy_one<T: Sc>(i: usize, rng: &mut StdRng, rep: &mut Report) {
         return;
     };
     let mut events: Vec<ProxyEvent<T>> = Vec::new();
-    let pool = rayon::ThreadPoolBuilder::new().num_threads(rs.threads.max(1)).build().unwrap();
+    let pool = crate::pools::pool(rs.threads.max(1));
     let (end, term, _nfev, _obj) = pool.install(|| {
         let mut obs = |e: ProxyEvent<T>| events.push(e);
         prob.minimize_observed(&rs.cfg, &mut obs)
